@@ -230,7 +230,7 @@ class MonoTimer(object):
         self.start = None
         self.stop = None
         self.latest = time.time()  # last time checked current time
-        self.restart(start=self.latest, duration=duration)
+        self._restart(start=self.latest, duration=duration)
 
     def update(self):
         '''
@@ -279,6 +279,11 @@ class MonoTimer(object):
             If duration arg is missing then restarts for current duration
         """
         self.update()
+        return self._restart(start=start, duration=duration)
+
+    def _restart(self, start=None, duration=None):
+        """ Restarts timer relative to .latest without reading the clock again
+        """
         if start is not None:
             self.start = abs(start) #must be non negative
         else: #use current time
@@ -296,7 +301,8 @@ class MonoTimer(object):
         """ Restarts timer at stop so no time lost
 
         """
-        return self.restart(start=self.stop)
+        self.update()  # shift .stop first if clock retrograded
+        return self._restart(start=self.stop)
 
     def extend(self, extension=None):
         """ Extends timer duration for additional extension seconds (fractional).
@@ -307,12 +313,13 @@ class MonoTimer(object):
             effectively doubling the time
 
         """
+        self.update()  # shift .start first if clock retrograded
         if extension is None: #otherwise extend by .duration or double
             extension = self.duration
 
         duration = self.duration + extension
 
-        return self.restart(start=self.start, duration=duration)
+        return self._restart(start=self.start, duration=duration)
 
 class StoreTimer(object):
     """ Class to manage relative Store based time.
